@@ -399,6 +399,8 @@ async fn dump_parts(srv: &mut MainEventLoop) -> Value {
 				"key": which_key,
 				"contacts_current": e.contacts_hash == contacts_hash,
 				"has_eab_hash": !e.external_account_hash.is_empty(),
+				"contacts_hash": cu::hexs(&e.contacts_hash),
+				"eab_hash": cu::hexs(&e.external_account_hash),
 			}));
 		}
 		av.push(json!({
